@@ -543,6 +543,13 @@ func c05PrimSchema(r *Rng) (*GSchema, []string) {
 		if r.Chance(30) {
 			g.Max = fp(5)
 		}
+		if r.Chance(30) {
+			// the declared width does not change the number a text stands for (0.1 is 0.1, not its float32 neighbour)
+			g.Format = Pick(r, []string{"float", "double"})
+			if r.Chance(50) {
+				g.Enum = []any{0.1, 0.7, 2.5, 1.5}
+			}
+		}
 		return g, c05NumTexts
 	case 3:
 		return &GSchema{HasTypes: true, Types: []string{"boolean"}}, c05BoolTexts
